@@ -77,6 +77,15 @@ def e2e(which, v1, v2, size, thr, chunk, x, y):
     return None
 
 
+def task_retry_progress(nfaults, size, start, io, a, b, f1, f2):
+    """C09.2: GetObjectTask alone, range starting at a symbolic offset: progress taken back after a faulted attempt is
+    exactly what that attempt reported"""
+    r = c02.get_object_task(nfaults, size, start, io, a, b, f1, f2)
+    if r and 'progress' in r:
+        return r
+    return None
+
+
 def nested_progress(transfer, size, thr, chunk, io, p1, k1, p2):
     """C09.5: progress accounting when parts overlap (engine NS: a second part is started while the first one is
     inside its request / inside a subscriber's on_progress)"""
@@ -127,6 +136,13 @@ OBLIGATIONS = [
          pre=['1 <= size', '1 <= thr', '1 <= chunk', 'size <= 2 * chunk', '1 <= x', 'chunk <= x', '-1 <= y <= chunk'],
          timeout=(150, 900), bounds='<= 2 parts x 1 chunk, one retryable stream fault at a symbolic position',
          encodes=['StreamReaderProgress', 'GetObjectTask retry rewind'], assumptions=['S1', 'S2']),
+    dict(id='C09.2', impl='task_retry_progress',
+         params='size: int, start: int, io: int, a: int, b: int, f1: int, f2: int', cases=[(1,), (2,)],
+         pre=['1 <= size', '0 <= start', '1 <= io', 'size <= 2 * io', '0 <= a <= io and 0 <= b <= io',
+              '-1 <= f1 <= size', '-1 <= f2 <= size'],
+         splits=[['f2 == -1', 'b == 0']], splits_thorough=[[]], timeout=(170, 900),
+         bounds='one range at a symbolic (unbounded) start offset, <= 2 chunks + short reads per attempt, 1-2 faults',
+         encodes=['GetObjectTask._main retry rewind', 'StreamReaderProgress'], assumptions=['S1']),
     dict(id='C09.5', impl='nested_progress', params='size: int, thr: int, chunk: int, io: int, p1: int, k1: int, p2: int',
          cases=[('up-path',), ('up-seek',), ('down-seekable',)],
          pre=['1 <= thr <= size', '5 * 1024 ** 2 <= chunk <= 5 * 1024 ** 3', 'chunk < size <= 2 * chunk', 'io == chunk',
